@@ -133,10 +133,15 @@ def g_time_ratio(rng):
             {"id": "expcoal", "type": "ExponentialCoalescentModel", "tree_model": "tree", "theta": P("expcoal.theta", [4.0]), "growth": P("expcoal.growth", [0.3])},
             {"id": "coalint", "type": "ConstantCoalescentIntegratedModel", "tree_model": "tree", "alpha": 0.7, "beta": 1.3},
             {"id": "ctmc", "type": "CTMCScale", "x": "clock.rate", "tree_model": "tree"},
-            {"id": "joint", "type": "JointDistributionModel", "distributions": ["like", "coal", "ctmc", "tree", "clock.rate", "tree.ratios", "tree.root_height.shifted"]}]
-    leaves.update({"clock.rate.unres": "real", "gtr.rates": "positive", "gtr.freqs": "simplex", "coal.theta": "positive", "expcoal.theta": "positive", "expcoal.growth": "real"})
-    return {"name": "time-ratio", "spec": spec, "evals": ["like", "coal", "expcoal", "coalint", "ctmc", "tree", "joint"], "leaves": leaves,
-            "derived": derived + ["clock.rate"], "tensors": {"tree": "node_heights", "clock": "rates"}}
+            {"id": "bdsk.origin", "type": "TransformedParameter", "transform": "torch.distributions.AffineTransform", "parameters": {"loc": "tree.root_height", "scale": 1.0},
+             "x": P("bdsk.origin.delta", [0.8])},
+            {"id": "bdsk", "type": "BDSKModel", "tree_model": "tree", "R": P("bdsk.R", [1.5, 2.0]), "delta": P("bdsk.delta", [1.0, 0.7]), "s": P("bdsk.s", [0.3, 0.4]),
+             "rho": P("bdsk.rho", [0.0]), "origin": "bdsk.origin"},
+            {"id": "joint", "type": "JointDistributionModel", "distributions": ["like", "coal", "ctmc", "bdsk", "tree", "clock.rate", "tree.ratios", "tree.root_height.shifted"]}]
+    leaves.update({"clock.rate.unres": "real", "gtr.rates": "positive", "gtr.freqs": "simplex", "coal.theta": "positive", "expcoal.theta": "positive", "expcoal.growth": "real",
+                   "bdsk.origin.delta": "positive", "bdsk.R": "positive", "bdsk.delta": "positive", "bdsk.s": "unit"})
+    return {"name": "time-ratio", "spec": spec, "evals": ["like", "coal", "expcoal", "coalint", "ctmc", "bdsk", "tree", "joint"], "leaves": leaves,
+            "derived": derived + ["clock.rate", "bdsk.origin"], "tensors": {"tree": "node_heights", "clock": "rates"}}
 
 
 def g_time_shift(rng):
@@ -164,13 +169,10 @@ def g_time_shift(rng):
             {"id": "origin", "type": "TransformedParameter", "transform": "torch.distributions.AffineTransform",
              "parameters": {"loc": {"id": "root.view", "type": "ViewParameter", "parameter": "tree.shifts", "indices": "-1:"}, "scale": 1.0},
              "x": P("origin.delta", [0.8])},
-            {"id": "bdsk", "type": "BDSKModel", "tree_model": "tree", "R": P("bdsk.R", [1.5, 2.0]), "delta": P("bdsk.delta", [1.0, 0.7]), "s": P("bdsk.s", [0.3, 0.4]),
-             "rho": P("bdsk.rho", [0.0]), "origin": P("bdsk.origin", [500.0])},
             {"id": "joint", "type": "JointDistributionModel", "distributions": ["like", "skyride", "gmrf.ta", "skygrid", "gmrf", "tree", "tree.shifts", "skyride.theta"]}]
     leaves.update({"clock.mean": "positive", "clock.rates.unscaled": "positive", "kappa": "positive", "freqs": "simplex", "pinv": "unit", "skyride.theta.log": "real",
-                   "gmrf.ta.precision": "positive", "skygrid.theta": "positive", "gmrf.precision": "positive", "skyglide.theta": "positive", "origin.delta": "positive",
-                   "bdsk.R": "positive", "bdsk.delta": "positive", "bdsk.s": "unit"})
-    return {"name": "time-shift", "spec": spec, "evals": ["like", "skyride", "gmrf.ta", "skygrid", "gmrf", "gmrfint", "skyglide", "bdsk", "tree", "joint"], "leaves": leaves,
+                   "gmrf.ta.precision": "positive", "skygrid.theta": "positive", "gmrf.precision": "positive", "skyglide.theta": "positive", "origin.delta": "positive"})
+    return {"name": "time-shift", "spec": spec, "evals": ["like", "skyride", "gmrf.ta", "skygrid", "gmrf", "gmrfint", "skyglide", "tree", "joint"], "leaves": leaves,
             "derived": derived + ["clock.rates", "skyride.theta", "origin", "root.view"], "tensors": {"tree": "node_heights", "clock": "rates"}}
 
 
